@@ -30,6 +30,7 @@ from thewalrus.symplectic import rotation as _R
 from thewalrus.symplectic import xpxp_to_xxpp
 
 import thewalrus.quantum as twq
+from thewalrus import hermite_multidimensional
 
 import strawberryfields as sf
 
@@ -1427,6 +1428,46 @@ class BaseGaussianState(BaseState):
         return twq.probabilities(mu, cov, cutoff, hbar=self._hbar)
 
 
+def _bosonic_fock_tensor(mu, cov, cutoff, hbar):
+    r"""Fock representation of one Gaussian term of a bosonic state.
+
+    The terms of a bosonic state may have complex-valued means (e.g., cat states in the complex
+    representation). :func:`thewalrus.quantum.density_matrix` obtains :math:`\langle a^\dagger\rangle`
+    by complex conjugation of :math:`\langle a\rangle`, which is only correct for real means, so
+    for complex means the same expression is evaluated with
+    :math:`(x - ip)/\sqrt{2\hbar}` in place of the conjugate.
+
+    Args:
+        mu (array): vector of (possibly complex) means in the xxpp ordering
+        cov (array): covariance matrix in the xxpp ordering
+        cutoff (int): Fock space truncation
+        hbar (float): value of :math:`\hbar`
+
+    Returns:
+        array: tensor with indices ordered as in :meth:`BaseState.reduced_dm`
+    """
+    mu = np.asarray(mu)
+    cov = np.real_if_close(cov)
+    if np.allclose(np.imag(mu), 0):
+        return twq.density_matrix(
+            np.real(mu), cov, hbar=hbar, normalize=False, cutoff=cutoff
+        )
+
+    N = len(mu) // 2
+    alpha = (mu[:N] + 1j * mu[N:]) / np.sqrt(2 * hbar)
+    alpha_c = (mu[:N] - 1j * mu[N:]) / np.sqrt(2 * hbar)
+    beta = np.concatenate([alpha, alpha_c])
+    beta_c = np.concatenate([alpha_c, alpha])
+
+    Q = twq.Qmat(cov, hbar=hbar)
+    pref = np.exp(-0.5 * beta @ np.linalg.inv(Q) @ beta_c) / np.sqrt(np.linalg.det(Q))
+    A = twq.Amat(cov, hbar=hbar).conj()
+    y = beta - A @ beta_c
+    tensor = pref * hermite_multidimensional(-A, cutoff, y=y, renorm=True, modified=True)
+    sf_order = tuple(chain.from_iterable([[i, i + N] for i in range(N)]))
+    return tensor.transpose(sf_order)
+
+
 class BaseBosonicState(BaseState):
     r"""Class for the representation of quantum states as linear combinations
     of Gaussian functions in phase space.
@@ -1782,12 +1823,8 @@ class BaseBosonicState(BaseState):
         rho = 0
         for i in range(self.num_weights):
             # The Walrus expects the xxpp ordering, bosonic states are stored in xpxp ordering
-            rho += weights[i] * twq.density_matrix(
-                xpxp_to_xxpp(mus[i]),
-                xpxp_to_xxpp(covs[i]),
-                hbar=self._hbar,
-                normalize=False,
-                cutoff=cutoff,
+            rho += weights[i] * _bosonic_fock_tensor(
+                xpxp_to_xxpp(mus[i]), xpxp_to_xxpp(covs[i]), cutoff, self._hbar
             )
         return rho
 
@@ -1906,11 +1943,17 @@ class BaseBosonicState(BaseState):
             raise ValueError("Cutoff argument must be larger than the sum of photon numbers.")
 
         prob = 0
+        diagonal = tuple(k for m in n for k in (m, m))
         for i in range(self.num_weights):
             # The Walrus expects the xxpp ordering, bosonic states are stored in xpxp ordering
-            prob += self._weights[i] * twq.density_matrix_element(
-                xpxp_to_xxpp(self._mus[i]), xpxp_to_xxpp(self._covs[i]), n, n, hbar=self._hbar
-            )
+            mu, cov = xpxp_to_xxpp(self._mus[i]), xpxp_to_xxpp(self._covs[i])
+            if np.allclose(np.imag(mu), 0):
+                element = twq.density_matrix_element(
+                    np.real(mu), np.real_if_close(cov), n, n, hbar=self._hbar
+                )
+            else:
+                element = _bosonic_fock_tensor(mu, cov, max(n) + 1, self._hbar)[diagonal]
+            prob += self._weights[i] * element
         return prob.real
 
     def all_fock_probs(self, **kwargs):
